@@ -70,6 +70,16 @@ CLAIMS = {
         text="Accessors.tla derives from the class bodies alone the dataclass field order (inherited first, a re-declared field keeps its slot), the property / child split, the flag filter (system fields on their own flags) and the expected output of all eight accessors; TLC checks structural invariants and generates every hierarchy over a ten-entry field menu (bounded classes and fields per class) with the expected results for all 32 flag combinations x sort_keys and every instance (absent optionals, empty tuples, falsy children), plus every order of first use of the four self-installing generated accessors on a fixed three-level hierarchy with an overridden field. Each case is replayed in a fresh module namespace so first use really is first use.",
         note="Trusted: TLC, the class renderer (menu entry -> dataclass field), CPython dataclasses. No code->spec trace direction: the quantified object is the class definition, which the TLC generator enumerates; every exported case is executed against the library.",
         design="6 C12"),
+    "C11": dict(
+        technique="TLA+ oracle (Typing.tla: annotation terms in prefix notation, Classify) + exhaustive TLC term enumeration replayed as real class definitions in seven definition variants + TLC trace validation of random deeper terms",
+        text="Annotations are terms over ten leaves and eleven constructors; Classify (child / prop / reject) is defined in TLA+ from the statement and TLC checks the three verdicts partition the terms and that a property never mentions a node class or a mutable collection. Every term up to the depth bound is exported with its verdict and defined as a dataclass field in seven variants (plain, postponed, forward references defined later in both modes, NewType-wrapped, inherited, re-declared), eight same-verdict fields per class with culprits re-run alone: InvalidFieldAnnotations at definition or first instantiation, or the classification reported by get_child_fields / get_property_fields. Random terms of depth <= 3 are recorded in four variants and validated by Trace_Typing.tla.",
+        note="Trusted: TLC, the annotation renderer, CPython typing introspection. Exceptions raised inside mashumaro (annotations it cannot serialize) are counted and not compared.",
+        design="6 C11"),
+    "C13": dict(
+        technique="TLA+ oracle (Typing.tla: Conforms over value and annotation terms) + exhaustive TLC enumeration of (accepted annotation, value) pairs replayed as real constructions with the switch on and off + TLC trace validation",
+        text="Conforms(value, annotation) is a recursive TLA+ operator written from the statement (bool only to bool, ints for float, None only where allowed, exact length for fixed tuples, literals by membership, unions by any member, nodes by instance, NewType transparent); TLC exports every accepted annotation term up to the depth bound x 29 value terms; each annotation becomes a class, each value a construction with RUNTIME_TYPE_CHECK on (success or InvalidTypes naming exactly the field) and off (same node); three-field classes check invalid_fields is exactly the set of non-conforming fields. Random accepted terms of depth <= 3 x random values are recorded and validated by Trace_Typing.tla.",
+        note="Trusted: TLC, renderer. Not compared (statement silent): bool values against annotations mentioning float or Literal, str values for Sequence, Mapping annotations.",
+        design="6 C13"),
     "C10": dict(
         technique="TLA+ action properties (Immutable, MembershipFrame, FailFrame) on Registry.tla + Observe actions replayed with per-step fingerprints of every live node",
         text="In the Registry machine no action changes the record of a surviving slot (Immutable) and registry membership changes only in detach / detach_self / replace on the receiver's subtree (MembershipFrame); Observe actions stand for every read-only operation kind (traversals, Tree queries, xpath, patterns, visitors, transformers, comparison, hashing, rich printing, accessors, (de)serialization, setattr / delattr on every field) and are UNCHANGED. TLC exports every transition; the driver fingerprints every live node before each call and compares after it, and compares the whole abstract state with the spec's. Recorded histories are checked the same way at every step.",
